@@ -1,5 +1,6 @@
 """C02 — complex algebra and coil expand/reduce operators are correct and adjoint."""
 import ast
+import math
 import itertools
 import re as _re
 from fractions import Fraction
@@ -401,5 +402,22 @@ def oracles(ctx, deep):
                 add(Violation("complex-mm", "complex_mm / complex_bmm disagree with the native matrix product (%d,%d)x(%d,%d)" % (n, k, k, m), {"n": n, "k": k, "m": m}, {"fn": "mm"}))
         except Exception as e:  # noqa
             add(Violation("complex-raises", "complex_mm raises %s" % type(e).__name__, {}, {"fn": "raises-mm"}))
+    # single precision at tiny magnitudes (raw scanner units can be 1e-20 and below): |b|^2 is still representable there,
+    # and the quotient of two such numbers is an ordinary one
+    for sc in (1e-17, 1e-19, 1e-20):
+        g32 = torch.Generator().manual_seed(int(-math.log10(sc)))
+        a32 = torch.randn(300, 2, generator=g32) * sc
+        b32 = torch.randn(300, 2, generator=g32) * sc
+        runs += 1
+        try:
+            q = T.complex_division(a32, b32)
+        except Exception as e:  # noqa
+            add(Violation("complex-raises", "complex_division raises %s on float32 values of magnitude %g" % (type(e).__name__, sc), {"scale": sc}, {"fn": "complex_division-tiny"}))
+            continue
+        ref = torch.view_as_real(torch.view_as_complex(a32.double()) / torch.view_as_complex(b32.double())).float()
+        bad = ~torch.isfinite(q).all(-1)
+        rel = float(((q - ref).abs().max()) / (ref.abs().max() + 1e-30)) if not bool(bad.any()) else float("inf")
+        if bool(bad.any()) or rel > 1e-2:
+            add(Violation("complex-div", "complex_division of float32 values of magnitude %g: %d non-finite quotients, relative error %.3g against double precision (the true quotients are of order one)" % (sc, int(bad.sum()), rel), {"scale": sc, "nonfinite": int(bad.sum())}, {"fn": "complex_division-tiny"}))
     ctx.oracle_runs = runs
     return out
